@@ -164,11 +164,46 @@ fn svg_record(seed: u64, n: u64, target: usize, path: &str) -> Value {
     json!({"summary":{"events":n}})
 }
 
+/// C04: the document converters on arbitrary text, under catch_unwind
+fn total_run(seed: u64, n: u64, target: usize, path: &str) -> Value {
+    let mut w = std::io::BufWriter::new(std::fs::File::create(path).unwrap());
+    let mut r = rng::Rng::new(seed);
+    let mut calls = 0u64;
+    for k in 0..n {
+        let bytes = match k % 5 {
+            0 => gen::gen_stream(&mut r, target, gen::Flavor::Utf8),
+            1 => gen::gen_styled_text(&mut r, target, true),
+            2 => String::from_utf8_lossy(&gen::gen_stream(&mut r, target, gen::Flavor::Full)).into_owned().into_bytes(),
+            3 => {
+                let mut s = String::new();
+                for _ in 0..target / 2 {
+                    s.push(gen::gen_char(&mut r));
+                }
+                s.into_bytes()
+            }
+            _ => String::from_utf8_lossy(&(0..target).map(|_| r.byte()).collect::<Vec<u8>>()).into_owned().into_bytes(),
+        };
+        let text = String::from_utf8(bytes).unwrap();
+        let mut apis = Vec::new();
+        let pal = if k % 2 == 0 { anstyle_svg::VGA } else { anstyle_svg::WIN10_CONSOLE };
+        let res = catch_unwind(AssertUnwindSafe(|| anstyle_svg::Term::new().palette(pal).background(k % 3 == 0).render_svg(&text).len()));
+        apis.push(json!(["render_svg", if res.is_ok() { "ok" } else { "panic" }, res.is_ok()]));
+        let res = catch_unwind(AssertUnwindSafe(|| anstyle_roff::to_roff(&text).to_roff().len()));
+        apis.push(json!(["to_roff", if res.is_ok() { "ok" } else { "panic" }, res.is_ok()]));
+        calls += 2;
+        let head: Vec<u8> = text.as_bytes().iter().take(64).cloned().collect();
+        writeln!(w, "{}", json!({"n":text.len(),"in":head,"apis":apis,"dbg":{"inter":-1,"osc":-1,"params":-1}})).unwrap();
+    }
+    w.flush().unwrap();
+    json!({"summary":{"inputs":n,"calls":calls}})
+}
+
 fn main() {
     std::panic::set_hook(Box::new(|_| {}));
     let args: Vec<String> = std::env::args().collect();
     match args.get(1).map(|s| s.as_str()) {
         Some("roff-record") => println!("{}", roff_record(args[2].parse().unwrap(), args[3] == "1", args[4].parse().unwrap(), &args[5])),
+        Some("total-run") => println!("{}", total_run(args[2].parse().unwrap(), args[3].parse().unwrap(), args[4].parse().unwrap(), &args[5])),
         // svg-record <seed> <n> <target> <out>
         Some("svg-record") => println!("{}", svg_record(args[2].parse().unwrap(), args[3].parse().unwrap(), args[4].parse().unwrap(), &args[5])),
         Some("roff") | Some("svg") => {
